@@ -43,7 +43,8 @@ class ProbeResource(IResource):
         caps = sh.get('task_caps')
         if caps and task is not None:
             # a resource may offer a task less than its calendar says (the `task` argument of the extension point)
-            u = u * caps.get(str(task.id), 1)
+            f = caps.get(str(task.id), 1)
+            u = u * f[0] + f[1] if isinstance(f, list) else u * f      # [share, extra]: extra units only this task gets
         if sh.get('log_queries'):
             sh['events'].append(('q', self.name, date, task.id if task is not None else None, u))
         return u
